@@ -29,6 +29,15 @@ def getIntsD (j : Json) (k : String) : Except String (List Int) :=
   | .ok v => do let a : Array Int ← fromJson? v; pure a.toList
   | .error _ => pure []
 
+/-- the content of a data file: `file_pad` pattern bytes (`(37 i + 11) mod 251`) followed by `file`
+    (keeps requests small when the tensor sits at a large offset); `none` when there is no file -/
+def getFile (j : Json) : Except String (Option (List Nat)) := do
+  match ← getOptNats j "file" with
+  | none => return none
+  | some bytes =>
+    let pad := (← getOptNat j "file_pad").getD 0
+    return some ((List.range pad).map (fun i => (37 * i + 11) % 251) ++ bytes)
+
 def getDType (j : Json) (k : String) : Except String DType := do
   let c ← getNat j k
   match DType.ofCode c with
@@ -48,14 +57,20 @@ def protoOfJson (j : Json) : Except String Proto := do
 partial def repOfJson (j : Json) : Except String Rep := do
   match ← getStr j "k" with
   | "array" => return .array (← getDType j "d") (← getNats j "dims") (← getNats j "elems")
-  | "torch" => return .torch (← getDType j "d") (← getNats j "dims") (← getNats j "elems")
+  | "torch" =>
+    -- either the elements, or a larger storage and the view's storage_offset
+    match ← getOptNats j "storage" with
+    | some st =>
+      let dims ← getNats j "dims"
+      return .torch (← getDType j "d") dims (torchView st (← getNat j "offset") (prod dims))
+    | none => return .torch (← getDType j "d") (← getNats j "dims") (← getNats j "elems")
   | "packed" =>
     return .packed { dtype := ← getDType j "d", dims := ← getNats j "dims", raw := ← getNats j "raw" }
   | "proto" => return .proto (← protoOfJson j)
   | "external" =>
     return .external { dtype := ← getDType j "d", dims := ← getNats j "dims",
                        offset := ← getOptNat j "offset", length := ← getOptNat j "length" }
-                     (← getOptNats j "file")
+                     (← getFile j)
   | "lazy" => return .lazy (← getDType j "d") (← getNats j "dims") (← repOfJson (← j.getObjVal? "inner"))
   | k => throw s!"unknown representation kind {k}"
 
@@ -141,7 +156,7 @@ def handle : Handler := fun m j =>
       return observe r dest
   | "trepr.deserialize" => some do
       let p ← protoOfJson (← j.getObjVal? "proto")
-      let file ← getOptNats j "file"
+      let file ← getFile j
       return rJ (fun r => observe r none) (deserialize p file)
   | "trepr.packle" => some do
       return obj [("r", natsJ (packLE (← getNat j "bw") (← getNats j "xs")))]
